@@ -36,7 +36,7 @@ theorem findSome_err_some (ls : List (LStream V)) (s : LStream V) (hs : s ∈ ls
     cases this
 
 /-- the chunk view of error-free lazy streams commutes with the fan-in merge -/
-theorem lazy_ops_ok : OpsOK (LStream.chunks (V := V)) (fun s => s.err = none) lazyOps listOps where
+theorem lazy_ops_ok (z : V) : OpsOK (LStream.chunks (V := V)) (fun s => s.err = none) (lazyOps z) (listOps z) where
   merge := by
     intro l _
     simp [lazyOps, listOps]
